@@ -128,7 +128,8 @@ func DurationToDuration(d *dtpb.Duration) (time.Duration, error) {
 		symbol = units.Hours.Symbol()
 	}
 
-	duration, err := time.ParseDuration(fmt.Sprintf("%v%s", decimal, symbol))
+	// (plain notation: %v prints a large or a small amount with an exponent, which ParseDuration does not read)
+	duration, err := time.ParseDuration(strconv.FormatFloat(decimal, 'f', -1, 64) + symbol)
 	if err != nil {
 		// This branch should not be possible to be reached. If we have reached this,
 		// something really bad has happened -- because we form the format string
